@@ -38,6 +38,14 @@ def run(pid, tier):
     c = copy.deepcopy(g); c['act']['answers'][1]['durK'] += 7000; cans.append((c, 'PragmaticAsModel'))
     a = next(r for r in recs if r['kind'] == 'approx' and len(r['act']['dist']) >= 2)
     c = copy.deepcopy(a); c['act']['dist'][0][1] += 1; cans.append((c, 'ApproxSymmetric'))
+    c = copy.deepcopy(a); c['act']['dist'][0][1] = 0; c['act']['dist'][1][0] = 0; cans.append((c, 'ApproxSeparates'))
+    c = copy.deepcopy(a); c['act']['dur'][0][1] += 3; c['act']['dur'][1][0] += 3; cans.append((c, 'ApproxDurationFromSpeed'))
+    a2 = next(r for r in recs if r['kind'] == 'approx' and len(set(map(tuple, r['exp']['points']))) >= 2 and len(r['exp']['points']) >= 3)
+    def merge(act):
+        hi = max(act['index']); act['index'] = [min(x, hi - 1) for x in act['index']]
+    c = copy.deepcopy(a2); merge(c['act']); cans.append((c, 'CoordIndexIsBijection'))
+    c = copy.deepcopy(a2); c['act']['unique'] += 1; cans.append((c, 'CoordIndexIsBijection'))
+    c = copy.deepcopy(a2); c['act']['back'][0] = 0; cans.append((c, 'CoordIndexIsBijection'))
     fj = os.path.join(d, 'judge.ndjson')
     common.write_ndjson(fj, recs + [c[0] for c in cans])
     jr = common.tlc('JudgeRouting', env={'RECS': fj}, workers=1, name=pid + '-judge', timeout=1800)
@@ -65,5 +73,5 @@ def run(pid, tier):
            'interpolated_queries': sum(1 for c in core for q in c['queries'] if q['dur']['den'] > 1), 'pragmatic_sets': len(prag), 'approx_matrices': sum(1 for r in recs if r['kind'] == 'approx'),
            'canaries_rejected': len(cans), 'known_finding_hits': {k: len(v) for k, v in verdict.known_hits.items()}}
     common.write_evidence(pid, tier, 'model_checking', cov, time.time() - t0, len(verdict.violations),
-                          ['integer timestamps and entries; sizes 1-3; accuracy of the haversine approximation is not claimed (only symmetry and zero diagonal, as stated)'])
+                          ['integer timestamps and entries; sizes 1-3; accuracy of the haversine approximation is not claimed (symmetry, zero diagonal, positive distance between different locations down to ~3 m, duration = distance / speed, coordinate index a bijection)'])
     return rc
